@@ -12,6 +12,10 @@ struct Symbol *_ZN4bloc7Context9getSymbolEj(struct Context *this, unsigned id)
 { (void)this; __CPROVER_assert(id == g_var_id || (id == g_exp_id && g_exp_id != NID), "getSymbol: the iterator variable or the table's symbol"); return id == g_var_id ? &g_var_sym : &g_exp_sym; }
 unsigned VCALL_VariableExpression_symbolId(const struct VariableExpression *e) { (void)e; return g_var_id; }
 unsigned VCALL_Expression_symbolId(const struct Expression *e) { (void)e; return g_exp_id; }
+/* Expression::isVarName(): true for a VariableExpression only (expression_variable.h), which has a symbol; an item expression such as tt.at(0)
+ * has the symbol of its receiver and is no variable name */
+_Bool g_exp_isvar;
+_Bool VCALL_Expression_isVarName(const struct Expression *e) { (void)e; return g_exp_isvar ? 1 : 0; }
 struct Context__MemorySlot *_ZNSt6vectorIN4bloc7Context10MemorySlotESaIS2_EEixEm(struct vec_MemorySlot *this, unsigned long n)
 { (void)this; __CPROVER_assert(n == g_var_id, "the slot of the iterator variable"); return &g_var_slot; }
 
@@ -20,9 +24,10 @@ struct Context__MemorySlot *_ZNSt6vectorIN4bloc7Context10MemorySlotESaIS2_EEixEm
 void _ZNK4bloc15FORALLStatement15finalizeControlERNS_7ContextEPv(struct FORALLStatement *this, struct Context *ctx, void *data)
 __CPROVER_requires(IS_FRESH(this, sizeof(*this)) && IS_FRESH(ctx, sizeof(*ctx)) && IS_FRESH(data, sizeof(struct FORALLStatement__RT)) && IS_FRESH(this->_var, sizeof(struct VariableExpression)) && IS_FRESH(this->_exp, sizeof(struct Expression)))
 __CPROVER_requires(IS_FRESH(DATA->target, sizeof(struct Value)))
-__CPROVER_requires(INPUT_STATE(g_var_id, g_exp_id, g_var_sym._safety, g_var_sym._locked, g_exp_sym._locked, g_exp_sym._safety, VALUE_FIELDS(&g_var_slot.value)))
+__CPROVER_requires(INPUT_STATE(g_exp_isvar, g_var_id, g_exp_id, g_var_sym._safety, g_var_sym._locked, g_exp_sym._locked, g_exp_sym._safety, VALUE_FIELDS(&g_var_slot.value)))
 /* bool members hold 0 or 1 (type invariant of the input object) */
 __CPROVER_requires(*(unsigned char *)&DATA->it_safety_bak <= 1 && *(unsigned char *)&DATA->it_locked_bak <= 1 && *(unsigned char *)&DATA->ex_locked_bak <= 1)
+__CPROVER_requires(*(unsigned char *)&g_exp_isvar <= 1 && (g_exp_isvar ==> g_exp_id != NID))
 __CPROVER_requires(g_var_id != g_exp_id && g_var_id != NID && SET_EQ(g_var_sym._id, g_var_id) && VALID_TAG(&g_var_slot.value) && DATA->it_type_bak._major <= IMAGINARY)
 /* while the loop runs the iterator variable is a pointer into the table (a POINTER value owns nothing) */
 __CPROVER_requires(V_IS(&g_var_slot.value, POINTER) && V_LEVEL(&g_var_slot.value) == 0 && V_IS(DATA->target, NO_TYPE) && V_ISNULL(DATA->target))
@@ -34,9 +39,10 @@ PROP(C06, C07) __CPROVER_ensures(g_var_sym._safety == __CPROVER_old(DATA->it_saf
 PROP(C06, C07) __CPROVER_ensures(V_MAJOR(&g_var_slot.value) == __CPROVER_old(DATA->it_type_bak._major) && V_LEVEL(&g_var_slot.value) == __CPROVER_old(DATA->it_type_bak._level) && V_ISNULL(&g_var_slot.value) && V_LVALUE(&g_var_slot.value))
 /* the table: its symbol gets its lock back and nothing else of it changes; a private copy is destroyed instead */
 PROP(C06, C07) __CPROVER_ensures(g_exp_id != NID ==> (g_exp_sym._locked == __CPROVER_old(DATA->ex_locked_bak) && g_exp_sym._safety == __CPROVER_old(g_exp_sym._safety)))
-PROP(C06, C07) __CPROVER_ensures(g_exp_id == NID ==> (g_exp_sym._locked == __CPROVER_old(g_exp_sym._locked) && WAS_DELETED(__CPROVER_old(DATA->target)) && g_deleted_n == 2))
+PROP(C06, C07, C17) __CPROVER_ensures(g_exp_id == NID ==> (g_exp_sym._locked == __CPROVER_old(g_exp_sym._locked) && WAS_DELETED(__CPROVER_old(DATA->target)) && g_deleted_n == 2))
 /* the loop record is released */
-PROP(C07) __CPROVER_ensures(WAS_DELETED(data) && (g_exp_id != NID ==> g_deleted_n == 1))
+/* C17: a table that belongs to a symbol (also when reached through an item expression) is not destroyed by the loop */
+PROP(C07, C17) __CPROVER_ensures(WAS_DELETED(data) && (g_exp_id != NID ==> g_deleted_n == 1))
 ;
 
 #include FNS_C
